@@ -776,7 +776,13 @@ pub fn c18(args: &Args) {
 // C19
 // ---------------------------------------------------------------------------
 
-async fn c19_build<I: Backing>(node: &mut ActorNode<I>, ksn: &str, rng: &mut StdRng, entries: usize, origins: u8, hour_scale: bool, purge: bool) {
+/// Builds the sender's state through real actor messages and, next to it, an
+/// independent shadow set: the same operations applied to an OrSWotSet in the harness the
+/// way the keyspace actor applies them (filter by will_apply, newest version per id,
+/// stamp order). The shadow never passes through Serialize / GetState, so it is the
+/// reference for what "the sender's state" is.
+async fn c19_build<I: Backing>(node: &mut ActorNode<I>, ksn: &str, rng: &mut StdRng, entries: usize, origins: u8, hour_scale: bool, purge: bool) -> OrSWotSet<2> {
+    let mut shadow = OrSWotSet::<2>::default();
     let ks = node.group.get_or_create_keyspace(ksn).await;
     let base = 80_000_000u64;
     let mut t = base;
@@ -788,21 +794,47 @@ async fn c19_build<I: Backing>(node: &mut ActorNode<I>, ksn: &str, rng: &mut Std
         let src = rng.gen_range(0..2usize);
         if rng.gen_bool(0.3) {
             let _ = ks.send(ecv::Del { source: src, doc: DocumentMetadata::new(key, stamp), _marker: PhantomData }).await;
+            if shadow.will_apply(key, stamp) {
+                shadow.delete_with_source(src, key, stamp);
+            }
         } else if entries > 2000 {
             batch.push(doc(key, stamp));
             if batch.len() >= 200 {
                 let docs = std::mem::take(&mut batch);
+                shadow_multi_set(&mut shadow, src, &docs);
                 let _ = ks.send(ecv::MultiSet { source: src, docs, ctx: None, _marker: PhantomData }).await;
             }
         } else {
             let _ = ks.send(ecv::Set { source: src, doc: doc(key, stamp), ctx: None, _marker: PhantomData }).await;
+            if shadow.will_apply(key, stamp) {
+                shadow.insert_with_source(src, key, stamp);
+            }
         }
     }
     if !batch.is_empty() {
+        shadow_multi_set(&mut shadow, 0, &batch);
         let _ = ks.send(ecv::MultiSet { source: 0, docs: batch, ctx: None, _marker: PhantomData }).await;
     }
     if purge {
         let _ = ks.send(ecv::PurgeDeletes(PhantomData)).await;
+        shadow.purge_old_deletes();
+    }
+    shadow
+}
+
+fn shadow_multi_set(shadow: &mut OrSWotSet<2>, src: usize, docs: &[Document]) {
+    let mut valid: Vec<(Key, HLCTimestamp)> = docs.iter().map(|d| (d.id(), d.last_updated())).filter(|(k, t)| shadow.will_apply(*k, *t)).collect();
+    let mut newest: BTreeMap<Key, HLCTimestamp> = BTreeMap::new();
+    for (k, t) in &valid {
+        let e = newest.entry(*k).or_insert(*t);
+        if *e < *t {
+            *e = *t;
+        }
+    }
+    valid.retain(|(k, t)| newest.get(k) == Some(t));
+    valid.sort_by_key(|e| e.1);
+    for (k, t) in valid {
+        shadow.insert_with_source(src, k, t);
     }
 }
 
@@ -866,16 +898,46 @@ async fn c19_case(seed: u64, i: u64, entries: usize, tcp: bool) -> CaseOut {
         }
     };
     let ksn = "state";
-    c19_build(&mut node, ksn, &mut rng, entries, origins, hour_scale, purge).await;
+    let shadow = c19_build(&mut node, ksn, &mut rng, entries, origins, hour_scale, purge).await;
     let ks = node.group.get_or_create_keyspace(ksn).await;
-    let sender = match set_of(&ks).await {
-        Ok(s) => s,
+    // the sender's state: the harness-side shadow set (never serialized), cross-checked with
+    // what the sender's storage lists (C02: set == store)
+    let mut sender = shadow;
+    if tcp {
+        // on the real-time runtime the group's own purge task (first tick at start-up) may have
+        // run in the middle of the build: give the shadow the same purge if that explains it
+        if let Ok(store) = store_listing(node.store.as_ref(), ksn).await {
+            if store != enumerate(&sender) {
+                let mut purged = sender.clone();
+                purged.purge_old_deletes();
+                if store == enumerate(&purged) {
+                    sender = purged;
+                }
+            }
+        }
+    }
+    let listing = enumerate(&sender);
+    match store_listing(node.store.as_ref(), ksn).await {
+        Ok(store) if store != listing => {
+            let only_store: Vec<_> = store.0.iter().chain(store.1.iter()).filter(|e| !listing.0.contains(e) && !listing.1.contains(e)).take(3).collect();
+            let only_shadow: Vec<_> = listing.0.iter().chain(listing.1.iter()).filter(|e| !store.0.contains(e) && !store.1.contains(e)).take(3).collect();
+            out.inconclusive = Some(format!("harness shadow set and the sender's storage disagree (a C02 matter): no verdict for C19 on this state (entries={entries} origins={origins} hour_scale={hour_scale} purge={purge} only_store={only_store:?} only_shadow={only_shadow:?} sizes {}+{} vs {}+{})", store.0.len(), store.1.len(), listing.0.len(), listing.1.len()));
+            return out;
+        },
         Err(e) => {
             out.inconclusive = Some(e);
             return out;
         },
-    };
-    let listing = enumerate(&sender);
+        _ => {},
+    }
+    match set_of(&ks).await {
+        Ok(serialized) => {
+            if let Some(diff) = equivalent(&sender, &serialized, &mut rng) {
+                out.violate("C19:serialized-state-differs-from-the-senders-state", json!({"entries": entries, "difference": diff}));
+            }
+        },
+        Err(e) => out.violate("C19:sender-could-not-serialize-its-state", json!(e)),
+    }
     let mut rc = ecv::ReplicationClient::<HStore<MemStore>>::new(Clock::new(150), Channel::connect(addr));
     let got = std::panic::AssertUnwindSafe(rc.get_state(ksn));
     let got = futures::FutureExt::catch_unwind(got).await;
@@ -953,7 +1015,7 @@ pub fn c19(args: &Args) {
     let mut report = Report::new(
         args,
         "E1-actor",
-        "keyspace states built through real actor messages (both sources, 1..200 origins, inserts and deletes, hour-scale or dense stamps, optional purge): empty, tombstone-heavy, sizes straddling every power of two up to 20 000 entries. The sender's set (Serialize, validated decode) is compared with what ReplicationClient::get_state returns over the in-memory transport and, for a sample, over real loopback HTTP/2 (chunked bodies): same listing of live ids / tombstones / stamps and the same will_apply decisions on a battery of probes (keys present and absent x stamps around present stamps and cut-offs x origins). For small replies EVERY bit, for large ones random bits of the reply are corrupted in transit: the result must be Err, never a state, never a panic. The debug build keeps rustc's misaligned-dereference checks on for all sizes. Non-trivial: every state; distinct = distinct (live, tombstones, origins, spread, purge, transport).",
+        "keyspace states built through real actor messages (both sources, 1..200 origins, inserts and deletes, hour-scale or dense stamps, optional purge): empty, tombstone-heavy, sizes straddling every power of two up to 20 000 entries. The sender's state = an independent shadow OrSWotSet kept by the harness (same operations applied the way the actor applies them; never serialized; cross-checked against the sender's storage listing) is compared with the actor's Serialize reply and with what ReplicationClient::get_state returns over the in-memory transport and, for a sample, over real loopback HTTP/2 (chunked bodies): same listing of live ids / tombstones / stamps and the same will_apply decisions on a battery of probes (keys present and absent x stamps around present stamps and cut-offs x origins). For small replies EVERY bit, for large ones random bits of the reply are corrupted in transit: the result must be Err, never a state, never a panic. The debug build keeps rustc's misaligned-dereference checks on for all sizes. Non-trivial: every state; distinct = distinct (live, tombstones, origins, spread, purge, transport).",
     );
     if let Some(path) = &args.replay {
         let r = read_replay(path);
